@@ -1,7 +1,8 @@
 FNS = ["reim_fft_simple", "reim_ifft_simple", "reim_fftvec_mul_simple", "reim_fftvec_addmul_simple", "reim_from_znx64_simple", "reim_to_znx64_simple",
        "cplx_fft_simple", "cplx_ifft_simple", "cplx_fftvec_mul_simple", "cplx_fftvec_addmul_simple", "cplx_from_znx32_simple", "cplx_from_tnx32_simple",
        "cplx_to_tnx32_simple", "reim4_fftvec_mul_simple", "reim4_fftvec_addmul_simple", "reim4_from_cplx_simple", "reim4_to_cplx_simple",
-       "znx_small_single_product", "vmp_apply_dft", "svp_apply_dft", "vec_znx_normalize_base2k", "vec_znx_dft+idft"]
+       "znx_small_single_product", "vmp_apply_dft", "svp_apply_dft", "vec_znx_normalize_base2k", "vec_znx_dft+idft",
+       "reim4_convolution", "reim4_vec_mat_products", "q120_vec_mat1col_product_bbc"]
 
 
 def _jobs(tier):
